@@ -183,6 +183,30 @@ structure Prog where
 
 def Prog.defsFn (p : Prog) : Name → Q := fun f => p.defs.getD f .empty
 
+/-- every called function is one of the `nf` defined ones (else: a compile error in jq) -/
+def Q.Closed (nf : Nat) : Q → Prop
+  | .pipe a b => a.Closed nf ∧ b.Closed nf
+  | .comma a b => a.Closed nf ∧ b.Closed nf
+  | .arr q => q.Closed nf
+  | .call1 f a => f < nf ∧ a.Closed nf
+  | _ => True
+
+/-- the query uses the parameter of the enclosing function -/
+def Q.HasParam : Q → Prop
+  | .param => True
+  | .pipe a b => a.HasParam ∨ b.HasParam
+  | .comma a b => a.HasParam ∨ b.HasParam
+  | .arr q => q.HasParam
+  | .call1 _ a => a.HasParam
+  | _ => False
+
+/-- well-scoped programs (what the jq compiler accepts): calls go to defined functions and the
+    main query does not use a parameter -/
+structure Prog.WF (p : Prog) : Prop where
+  defs_closed : ∀ q ∈ p.defs, q.Closed p.defs.length
+  main_closed : p.main.Closed p.defs.length
+  main_noparam : ¬ p.main.HasParam
+
 /-- code of one definition (compileFuncDef with one filter argument), placed at `start`:
     jump END; scope [id, n, 1]; store [id,0]; store [id,1]; load [id,0]; body; ret; END: -/
 def compileFunc (entry : Name → Nat) (f : Name) (body : Q) (start : Nat) : List Instr :=
